@@ -16,6 +16,9 @@ import (
 // calleeIs reports whether instr is a static call of a function / method with
 // the given name (optionally on a receiver type).
 func calleeIs(in ssa.Instruction, recv, name string) bool {
+	if roleLog != nil {
+		roleLog[[2]string{recv, name}] = true
+	}
 	c, ok := in.(ssa.CallInstruction)
 	if !ok {
 		return false
@@ -231,7 +234,9 @@ func OrdLstFirst(p *load.Program) *report.RuleResult {
 	n = 0
 	for _, b := range bv.Blocks {
 		for _, in := range b.Instrs {
-			if calleeIs(in, "binaryWriter", "write") || calleeIs(in, "bufstack", "push") {
+			if calleeIs(in, "binaryWriter", "write") || calleeIs(in, "bufstack", "push") || (!calleeIs(in, "binaryWriter", "writeLST") && callsThrough(p, in, func(f *ssa.Function) bool {
+				return (f.Name() == "write" && recvTypeName(f) == "binaryWriter") || (f.Name() == "push" && recvTypeName(f) == "bufstack")
+			}, func(f *ssa.Function) bool { return f.Name() == "writeLST" })) {
 				n++
 				if ev3.At(in)["settled"] {
 					r.OK(p.FuncName(bv), instrPos(p, in), "first bytes of a value", "fixed table absent, already written, or written just before")
@@ -527,7 +532,7 @@ func OrdBVMReset(p *load.Program) *report.RuleResult {
 
 // OrdLstHide implements ORD-LSTHIDE.
 func OrdLstHide(p *load.Program) *report.RuleResult {
-	r := newResult("ORD-LSTHIDE", "in both readers, once a top-level struct is recognised as $ion_symbol_table, every exit either reports 'not a user value' (done == false) or an error", 6)
+	r := newResult("ORD-LSTHIDE", "in both readers, once a top-level struct is recognised as $ion_symbol_table, every exit either reports 'not a user value' (done == false) or an error", 2)
 	for _, fnn := range []string{"binaryReader.next", "textReader.nextBeforeTypeAnnotations"} {
 		fn := p.Func(nil, fnn)
 		if fn == nil {
@@ -564,8 +569,8 @@ func OrdLstHide(p *load.Program) *report.RuleResult {
 				r.Bad(p.FuncName(fn), instrPos(p, ret), what, "a top-level $ion_symbol_table struct can be returned to the caller as a user value")
 			}
 		}
-		if n < 3 {
-			missing(r, fnn+" symbol table interception", sprintf("found %d exits under isIonSymbolTable(annotations), expected 3", n))
+		if n < 1 {
+			missing(r, fnn+" symbol table interception", "no exit under isIonSymbolTable(annotations) found")
 		}
 	}
 	return r
@@ -1093,4 +1098,90 @@ func comparesElementsDirectly(f *ssa.Function) bool {
 		}
 	}
 	return n > 0
+}
+
+// callsThrough: in is a static call of a module function that reaches, through
+// static calls inside the module (at most three levels, never through a
+// function for which stop holds), a function for which target holds. It lets
+// a rule about "what this function does" follow a step extracted into a helper.
+func callsThrough(p *load.Program, in ssa.Instruction, target, stop func(*ssa.Function) bool) bool {
+	c, ok := in.(ssa.CallInstruction)
+	if !ok {
+		return false
+	}
+	f := load.Unwrap(c.Common().StaticCallee())
+	if f == nil || !p.InModule(f) {
+		return false
+	}
+	seen := map[*ssa.Function]bool{}
+	var walk func(g *ssa.Function, d int) bool
+	walk = func(g *ssa.Function, d int) bool {
+		if g == nil || seen[g] || d > 3 || !p.InModule(g) || (stop != nil && stop(g)) {
+			return false
+		}
+		seen[g] = true
+		for _, b := range g.Blocks {
+			for _, x := range b.Instrs {
+				cc, ok := x.(ssa.CallInstruction)
+				if !ok {
+					continue
+				}
+				h := load.Unwrap(cc.Common().StaticCallee())
+				if h == nil {
+					continue
+				}
+				if target(h) || walk(h, d+1) {
+					return true
+				}
+			}
+		}
+		return false
+	}
+	if stop != nil && stop(f) {
+		return false
+	}
+	return walk(f, 0)
+}
+
+// helperClosure lists fn and the module functions it reaches through static
+// calls (at most depth levels) for which follow holds.
+func helperClosure(p *load.Program, fn *ssa.Function, follow func(*ssa.Function) bool, depth int) []*ssa.Function {
+	out := []*ssa.Function{fn}
+	seen := map[*ssa.Function]bool{fn: true}
+	var walk func(g *ssa.Function, d int)
+	walk = func(g *ssa.Function, d int) {
+		if d >= depth {
+			return
+		}
+		for _, b := range g.Blocks {
+			for _, x := range b.Instrs {
+				cc, ok := x.(ssa.CallInstruction)
+				if !ok {
+					continue
+				}
+				cands := []*ssa.Function{load.Unwrap(cc.Common().StaticCallee())}
+				// a step handed over as a function value (w.writeValue(api, val, writeClobText))
+				for _, a := range cc.Common().Args {
+					switch fv := a.(type) {
+					case *ssa.Function:
+						cands = append(cands, fv)
+					case *ssa.MakeClosure:
+						if cf, ok := fv.Fn.(*ssa.Function); ok {
+							cands = append(cands, cf)
+						}
+					}
+				}
+				for _, h := range cands {
+					if h == nil || seen[h] || !p.InModule(h) || p.InTest(h) || len(h.Blocks) == 0 || !follow(h) {
+						continue
+					}
+					seen[h] = true
+					out = append(out, h)
+					walk(h, d+1)
+				}
+			}
+		}
+	}
+	walk(fn, 0)
+	return out
 }
